@@ -8,6 +8,7 @@ for d in "$out"/C*/; do
     src="$d$L"
     [ -f "$src/patch.diff" ] && [ -f "$src/demo.py" ] || { echo "skip $pid-$L (incomplete)"; continue; }
     dst=/verif/seeded/$pid-$L
+    [ -d "$dst" ] && continue        # already imported (meta.json may hold confirmation data)
     mkdir -p "$dst"
     cp "$src/patch.diff" "$src/demo.py" "$dst/"
     if [ -f "$src/meta.json" ]; then cp "$src/meta.json" "$dst/"; else
